@@ -148,14 +148,18 @@ func (k *KafkaSarama) inputMsg(topic string, mCh chan []byte, ec *uint64) {
 			break
 		}
 
-		select {
-		case k.producer.Input() <- &sarama.ProducerMessage{
-			Topic: topic,
-			Value: sarama.ByteEncoder(msg),
-		}:
-		case err := <-k.producer.Errors():
-			k.logger.Println(err)
-			*ec++
+		// a pending producer error must not take the place of this message
+		for sent := false; !sent; {
+			select {
+			case k.producer.Input() <- &sarama.ProducerMessage{
+				Topic: topic,
+				Value: sarama.ByteEncoder(msg),
+			}:
+				sent = true
+			case err := <-k.producer.Errors():
+				k.logger.Println(err)
+				*ec++
+			}
 		}
 	}
 
